@@ -234,6 +234,64 @@ def worker(job):
     return st
 
 
+def big_worker(job):
+    """Input larger than one command line, with no limit option (or limits far above the input) in force: the only thing that closes
+    a batch is the system's own budget. Conservation, order, the unchanged prefix and exit status 0 must hold whatever the size of
+    the environment (0..4000 variables) and the stack limit the budget derives from."""
+    import resource
+    k, nruns, seed = job
+    st = Stats()
+    rng = common.rng_for(seed, "C04big", k)
+    wd = common.mkscratch("C04b%d" % k)
+    try:
+        for i in range(nruns):
+            stack_kib = rng.choice([512, 512, 1024, 8192])
+            budget = max(128 * 1024, stack_kib * 1024 // 4)
+            nvars = rng.choice([0, 40, 900, 2000, 4000]) if stack_kib < 8192 else rng.choice([0, 4000, 12000])
+            env_extra = {"V%d" % j: "" for j in range(nvars)}
+            total = int(budget * rng.uniform(1.3, 3.2))
+            toks, size = [], 0
+            dist = rng.choice(["tiny", "short", "mixed"])
+            while size < total:
+                ln = {"tiny": 1, "short": rng.randint(1, 12), "mixed": rng.choice([1, 2, 7, 40, 300, 2000])}[dist]
+                t = bytes(rng.choice(b"abcxyz019_") for _ in range(ln)) if ln < 50 else (b"%d-" % len(toks)) + b"y" * ln
+                toks.append(t)
+                size += ln + 1
+            per_line = rng.choice([1, 1, 5, 50])
+            data = b"".join(b" ".join(toks[j:j + per_line]) + b"\n" for j in range(0, len(toks), per_line))
+            opts = rng.choice([[], [], ["-n", str(len(toks) + 5)], ["-L", str(len(toks) + 5)], ["-x"], ["-r"]])
+            initial = rng.choice([[], [b"init"], [b"a", b"b c"]])
+            lim = stack_kib * 1024
+
+            def pre():
+                resource.setrlimit(resource.RLIMIT_STACK, (lim, resource.RLIM_INFINITY))
+            r = xref.run_xargs(wd, opts, initial, data, env_extra=env_extra, preexec_fn=pre, timeout=300)
+            st.inc("evaluations")
+            st.inc("big_input_runs")
+            st.add("distinct", ("big", stack_kib, nvars, dist, tuple(opts), len(toks)))
+            got = []
+            ok_prefix = True
+            for _, argv in r.invocations:
+                if argv[:len(initial)] != initial:
+                    ok_prefix = False
+                got += argv[len(initial):]
+            st.inc("child_invocations", len(r.invocations))
+            if len(r.invocations) > 1:
+                st.inc("big_input_runs_split_by_the_system_limit")
+            if nvars >= 900:
+                st.inc("big_input_runs_with_hundreds_of_environment_variables")
+            if got != toks or not ok_prefix or r.rc != 0 or r.timed_out:
+                first = next((j for j, (a_, b_) in enumerate(zip(got, toks)) if a_ != b_), min(len(got), len(toks)))
+                st.violate("batching", None, {"case": "input larger than one command line, no binding limit option", "opts": opts,
+                                              "stack_limit_kib": stack_kib, "environment_variables": nvars, "arguments": len(toks),
+                                              "delivered": len(got), "first_difference_at": first, "exit": r.rc, "stderr": r.err[-200:],
+                                              "invocations": len(r.invocations), "prefix_unchanged": ok_prefix},
+                           {"generator": "lib/c04.py big_worker", "seed": seed, "k": k, "i": i})
+    finally:
+        common.force_rmtree(wd)
+    return st
+
+
 def self_check():
     t = [(b"a", False), (b"b", True), (b"c", True), (b"dd", True)]
     b, bo, last = greedy(t, 2, None, None, 10)
@@ -249,7 +307,8 @@ def self_check():
 def run(ctx):
     ctx.rule = ("random token sequences (lengths 1..40 and occasional 80..300) arranged in lines with blanks, tabs, trailing "
                 "blanks, empty lines; 0-3 initial arguments; -n/-L/-s (values chosen so that each limit binds, also two at "
-                "once), -x, -r; empty inputs; through the real xargs binary with the recorder as command; "
+                "once), -x, -r; empty inputs; inputs of 1.3-3.2 times the system's budget with no binding limit option under stack limits "
+                "512 KiB-8 MiB and 0-12000 environment variables; through the real xargs binary with the recorder as command; "
                 "distinct = (options, initial arguments, input bytes)")
     ctx.assumptions = ["reference tokenizer lib/xref.py", "inputs free of quotes/backslashes (C05 owns those)",
                        "with -x, a batch that is already complete by -n/-L is not an -s overflow even if the next argument would not have fitted into it"]
@@ -265,8 +324,11 @@ def run(ctx):
         print("exit", r.rc, "stderr", r.err, "invocations", r.invocations)
         raise common.Inconclusive("replay shown above")
     nw = common.NCPU
-    n = ctx.scale(3200, 96000)
+    n = ctx.scale(3200, 480000)
     ctx.pmap(worker, [(k, n // nw, ctx.seed) for k in range(nw)])
+    ctx.pmap(big_worker, [(k, ctx.scale(3, 40), ctx.seed) for k in range(nw)])
+    ctx.require("big_input_runs_split_by_the_system_limit", 10)
+    ctx.require("big_input_runs_with_hundreds_of_environment_variables", 5)
     for key in ("batches_closed_by_n", "batches_closed_by_L", "batches_closed_by_s", "batches_closed_by_two_limits_at_once",
                 "oversize_argument_runs", "x_overflow_runs", "empty_input_runs_without_r", "empty_input_runs_with_r"):
         ctx.require(key, 3)
